@@ -547,10 +547,14 @@ class FnView:
     def _call_expr(self, call, depth):
         nm = call.callee.name if call.callee else "<fnptr>"
         args = [self.expr(a, depth + 1) for a in call.args]
-        if args and any(f in nm for f in IDENTITY_CALLS):
+        if args and (any(f in nm for f in IDENTITY_CALLS) or
+                     (nm.endswith("::deref") and "Deref" in nm) or (nm.endswith("::deref_mut") and "DerefMut" in nm)):
             return args[0]
         if args and any(nm.endswith(u) for u in UNWRAP_CALLS[:4]):
             return payload(args[0])
+        if len(args) == 2 and (nm.endswith("ops::Index<I>>::index") or nm.endswith("ops::IndexMut<I>>::index_mut")
+                               or "ops::Index<" in nm and nm.endswith("::index")):
+            return ("index", strip_ref(args[0]), strip_ref(args[1]))
         last = nm.rsplit("::", 1)[-1]
         if last in CHECKED_ARITH and len(args) == 2 and ("num::" in nm or "core::num" in nm or "<impl u" in nm or "<impl i" in nm):
             e = (CHECKED_ARITH[last], strip_ref(args[0]), strip_ref(args[1]))
